@@ -102,7 +102,19 @@ func txnSetup(dir string, init Action) []string {
 	}
 	// nobody else holds these files (the environment process commits and leaves): a lock that is still there
 	// was left behind by an earlier statement - do not wait 10 s for it
-	return append([]string{"SET @@WAIT_TIMEOUT TO 0.1;"}, txnPreamble...)
+	pre := []string{"SET @@WAIT_TIMEOUT TO 0.1;"}
+	// tables big enough to be split over workers are processed with several workers (the sessions of the harness
+	// default to one): UPDATE, DELETE and REPLACE number and match records per worker range
+	big := 0
+	for _, t := range txnInitTables(init) {
+		if len(t.Rows) > big {
+			big = len(t.Rows)
+		}
+	}
+	if big >= 100 {
+		pre = append(pre, fmt.Sprintf("SET @@CPU TO %d;", 2+big%3))
+	}
+	return append(pre, txnPreamble...)
 }
 
 // declarations every Txn program starts with: the temporary table, a variable to receive function results, a function
